@@ -6,8 +6,8 @@ from harness.core import cbool, clist, copt, cz, czlist
 ID = "C15"
 MODEL_TARGETS = ["C15/Cases.vo"]
 PROOF_TARGETS = ["C15/Lemmas.vo", "C15/Proofs.vo", "C15/Long.vo", "C15/Paths.vo", "C15/Main.vo", "C15/Layout.vo",
-                 "C15/History.vo", "C15/Prims.vo", "C15/Gen.vo", "C15/Bridge.vo", "C15/BridgeMI.vo", "C15/BridgeAll.vo"]
-OBLIGATION_FILES = ["C15/Bridge.v", "C15/BridgeMI.v"]
+                 "C15/History.vo", "C15/Labels.vo", "C15/Refuted.vo", "C15/Prims.vo", "C15/Gen.vo", "C15/Bridge.vo", "C15/BridgeMI.vo", "C15/BridgeAll.vo"]
+OBLIGATION_FILES = ["C15/Bridge.v", "C15/BridgeMI.v", "C15/Refuted.v"]
 PROPS_FILE = "C15/Props.v"
 SHARD = 120
 RULE = ("every typed conversion path of length 1..3 over the five containers (nested / 3-D / "
@@ -39,9 +39,11 @@ TRUSTED = [
     "values are k/2 floats compared exactly as the integers k",
 ]
 MODELLED = [
-    "row index of nested frames and the time index inside Series cells are taken to be the default "
-    "0..n-1 / 0..T-1 (the oracle checks the outputs have exactly these); other labels are outside "
-    "the property's quantifier",
+    "instance labels (row index of nested frames, instance level, case ids) are arbitrary distinct "
+    "ints or strings; strings reach the Coq model through an order-preserving integer code (the "
+    "conversions use labels only through equality and order); the time index inside Series cells "
+    "is the default 0..T-1 (the oracle checks the outputs have exactly this); the Bridge lemmas of "
+    "the regenerated functions are stated for frames with the default row index",
     "multi-index level names, 2-D DataFrame column labels (f'{col}__{t}') and long-table column "
     "labels are checked by the Python oracle only, they are not part of the Coq containers; the "
     "statements that only compute such labels are skipped by the translator and listed in the "
@@ -118,6 +120,32 @@ def _edge(rng, e, c):
     return d
 
 
+LABEL_POOL = ["b", "a", "zz", "B", "_", "a1", "ab", "", "10", "9", "é", "inst 3"]
+
+
+def _ilabels(rng, n, mode=None):
+    """instance labels: None = the default 0..n-1; else n distinct labels (row index of a nested
+    frame, level 0 of a multi-index frame, case ids of a long table)"""
+    mode = mode or rng.choice(["default", "default", "perm", "ints", "strs", "ascending"])
+    if mode == "default":
+        return None
+    if mode == "perm":
+        lab = list(range(n))
+        rng.shuffle(lab)
+        if n > 1 and lab == sorted(lab):
+            lab.reverse()
+        return lab
+    if mode == "ints":
+        return rng.sample(range(-9, 40), n)
+    if mode == "ascending":
+        return sorted(rng.sample(range(-9, 40), n))
+    return rng.sample(LABEL_POOL, n)
+
+
+def _lab(case):
+    return case.get("labels") or list(range(case["n"]))
+
+
 def _mk_case(rng, start, skel, n, c, T, cx=None):
     vals = rng.sample(range(-30, 170), n * c * T)
     data = [[[vals[(i * c + j) * T + t] for t in range(T)] for j in range(c)] for i in range(n)]
@@ -130,6 +158,11 @@ def _mk_case(rng, start, skel, n, c, T, cx=None):
         case["levels"] = rng.choice([["instances", "timepoints"], ["inst", "tp"]])
     if start == "L":
         case["shuffle"] = rng.choice([None, None, rng.randint(1, 10 ** 6)])
+    if start in ("N", "M", "L"):
+        lab = _ilabels(rng, n)
+        if lab is not None:
+            # a shuffled long table has no order of appearance: its instances are ordered by id
+            case["labels"] = sorted(lab) if case.get("shuffle") else lab
     if start == "T":
         case["tdf"] = rng.random() < 0.5
     path = []
@@ -262,13 +295,16 @@ def _build_start(case):
                 for j in range(c)]
         df = pd.concat(cols, axis=1)
         df.columns = case["names"]
+        if case.get("labels"):
+            df.index = list(case["labels"])
         return df
     if st == "M":
-        idx = pd.MultiIndex.from_product([range(n), range(T)], names=case["levels"])
+        idx = pd.MultiIndex.from_product([_lab(case), range(T)], names=case["levels"])
         rows = [[arr[i, j, t] for j in range(c)] for i in range(n) for t in range(T)]
         return pd.DataFrame(rows, index=idx, columns=case["names"])
     if st == "L":
-        rows = [(i, case["names"][j], t, arr[i, j, t])
+        lab = _lab(case)
+        rows = [(lab[i], case["names"][j], t, arr[i, j, t])
                 for j in range(c) for i in range(n) for t in range(T)]
         if case.get("shuffle"):
             import random
@@ -290,11 +326,10 @@ def _canon(obj, tag):
         return {"rep": "A", "data": [[[_enc(v) for v in s] for s in inst] for inst in obj.tolist()]}
     if tag == "T":
         if isinstance(obj, np.ndarray) and obj.ndim == 2:
-            return {"rep": "T", "labels": None, "index_ok": True,
+            return {"rep": "T", "labels": None, "index": None,
                     "rows": [[_enc(v) for v in r] for r in obj.tolist()]}
         if isinstance(obj, pd.DataFrame) and obj.index.nlevels == 1:
-            return {"rep": "T", "labels": _labels(obj.columns),
-                    "index_ok": list(obj.index) == list(range(len(obj))),
+            return {"rep": "T", "labels": _labels(obj.columns), "index": _labels(obj.index),
                     "rows": [[_enc(v) for v in r] for r in obj.to_numpy().tolist()]}
         return {"rep": "?", "type": type(obj).__name__, "ndim": getattr(obj, "ndim", None)}
     if not isinstance(obj, pd.DataFrame):
@@ -303,7 +338,7 @@ def _canon(obj, tag):
         if obj.index.nlevels != 2:
             return {"rep": "?", "type": "DataFrame", "nlevels": obj.index.nlevels}
         return {"rep": "M", "cols": _labels(obj.columns), "levels": _labels(obj.index.names),
-                "keys": [[int(a), int(b)] for a, b in obj.index.tolist()],
+                "keys": [[_name_out(a), int(b)] for a, b in obj.index.tolist()],
                 "rows": [[_enc(v) for v in r] for r in obj.to_numpy().tolist()]}
     if tag == "L":
         cols = _labels(obj.columns)
@@ -311,7 +346,7 @@ def _canon(obj, tag):
             return {"rep": "?", "type": "DataFrame", "columns": cols}
         return {"rep": "L", "columns": cols,
                 "index_ok": list(obj.index) == list(range(len(obj))),
-                "rows": [[int(a), _name_out(b), int(c_), _enc(v)] for a, b, c_, v in zip(
+                "rows": [[_name_out(a), _name_out(b), int(c_), _enc(v)] for a, b, c_, v in zip(
                     obj["case_id"].tolist(), obj["dim_id"].tolist(), obj["reading_id"].tolist(),
                     obj["value"].tolist())]}
     if tag == "N":
@@ -335,7 +370,7 @@ def _canon(obj, tag):
             rows.append(row)
         return {"rep": "N", "cols": _labels(obj.columns),
                 "kind": kinds.pop() if len(kinds) == 1 else "mixed:" + "".join(sorted(kinds)),
-                "index_ok": obj.index.nlevels == 1 and list(obj.index) == list(range(len(obj))),
+                "index": _labels(obj.index) if obj.index.nlevels == 1 else ["?multi"],
                 "tindex_ok": tindex_ok, "rows": rows}
     raise AssertionError(tag)
 
@@ -437,15 +472,22 @@ def _default_names(c):
     return ["var_%d" % i for i in range(c)]
 
 
-def _simulate(case):
-    """Expected final container at the level of the canonical panel (names or None, data)."""
+def _simulate(case, long_sorts_instances=False):
+    """Expected final container at the level of the canonical panel (names or None, data, and
+    the instance labels: carried by nested -> multi-index / long / 2-D DataFrame, reset to 0..n-1
+    by every conversion that builds a new nested frame or an array).  Instances keep their
+    POSITION through every conversion; with long_sorts_instances the long -> nested step instead
+    orders them by case id (what the pivot does: open finding F-C15-4)."""
     data = [[list(s) for s in inst] for inst in case["data"]]
     tag = case["start"]
     names = list(case["names"]) if "names" in case else None
     st = {"kind": case.get("cells", "S"), "levels": case.get("levels"), "labels": None}
+    ilab = list(case["labels"]) if case.get("labels") and tag in "NML" else None
+    tindex = None
     if tag == "T":
         data = [[sum(inst, [])] for inst in data]
         st["labels"] = list(range(len(data[0][0]))) if case.get("tdf") else None
+        tindex = list(range(len(data))) if case.get("tdf") else None
     for pos, edge in enumerate(case["path"]):
         e = edge["e"]
         c = len(data[0])
@@ -453,13 +495,14 @@ def _simulate(case):
             if (edge["np"] and edge["pd"]) or tag not in "NA":
                 return {"err": "ValueError", "at": pos}
             if tag == "N" and edge["np"]:
-                tag, names = "A", None
+                tag, names, ilab = "A", None, None
             elif tag == "A" and edge["pd"]:
                 tag, names, st["kind"] = "N", _default_names(c), "S"
             continue
         assert SRC[e] == tag, "ill-typed path"
         if e in ("N>A", "M>A"):
             names = None
+            ilab = None
         elif e in ("A>N", "A>M"):
             cn = _cn(edge, c)
             names = cn if cn is not None else _default_names(c)
@@ -471,7 +514,11 @@ def _simulate(case):
             st["levels"] = [edge.get("ii") or "instance", edge.get("ti") or "timepoints"]
         elif e == "M>N":
             st["kind"] = "A" if edge["np"] else "S"
+            ilab = None
         elif e == "L>N":
+            if long_sorts_instances and ilab is not None:
+                data = [data[i] for i in sorted(range(len(data)), key=lambda i: ilab[i])]
+            ilab = None
             order = sorted(range(c), key=lambda j: names[j])
             data = [[inst[j] for j in order] for inst in data]
             cn = edge.get("cn")
@@ -482,27 +529,33 @@ def _simulate(case):
             T = len(data[0][0])
             if e == "N>T" and not edge["np"]:
                 st["labels"] = ["%s__%d" % (nm, t) for nm in names for t in range(T)]
+                tindex = ilab if ilab is not None else list(range(len(data)))
             else:
                 st["labels"] = None
+                tindex = None
             data = [[sum(inst, [])] for inst in data]
             names = None
+            ilab = None
         elif e == "T>N":
             names = [0]
             st["kind"] = "A" if edge.get("np") else "S"
+            tindex = None
         tag = DST[e]
     n, c, T = len(data), len(data[0]), len(data[0][0])
+    lab = ilab if ilab is not None else list(range(n))
     if tag == "N":
-        return {"rep": "N", "cols": names, "kind": st["kind"], "rows": data}
+        return {"rep": "N", "cols": names, "kind": st["kind"], "rows": data, "index": lab}
     if tag == "A":
         return {"rep": "A", "data": data}
     if tag == "M":
         return {"rep": "M", "cols": names, "levels": st["levels"],
-                "keys": [[i, t] for i in range(n) for t in range(T)],
+                "keys": [[lab[i], t] for i in range(n) for t in range(T)],
                 "rows": [[data[i][j][t] for j in range(c)] for i in range(n) for t in range(T)]}
     if tag == "L":
-        return {"rep": "L", "rows": [[i, names[j], t, data[i][j][t]]
+        return {"rep": "L", "rows": [[lab[i], names[j], t, data[i][j][t]]
                                      for j in range(c) for i in range(n) for t in range(T)]}
-    return {"rep": "T", "labels": st["labels"], "rows": [inst[0] for inst in data]}
+    return {"rep": "T", "labels": st["labels"], "index": tindex,
+            "rows": [inst[0] for inst in data]}
 
 
 def _panel_of(o):
@@ -555,8 +608,9 @@ def _diff(exp, out, what):
     if r == "N":
         if exp["kind"] != out["kind"]:
             return "cell-kind-changed: %s expected %s got %s" % (what, exp["kind"], out["kind"])
-        if not out["index_ok"]:
-            return "instance-index-changed: %s row index is not 0..n-1" % what
+        if exp["index"] != out["index"]:
+            return "instance-labels-changed: %s expected row index %s got %s" % (
+                what, exp["index"], out["index"])
         if not out["tindex_ok"]:
             return "time-index-changed: %s a Series cell is not indexed 0..T-1" % what
     if r == "M":
@@ -574,8 +628,9 @@ def _diff(exp, out, what):
         if exp["labels"] != out["labels"]:
             return "table-labels-changed: %s expected %s got %s" % (
                 what, exp["labels"], out["labels"])
-        if not out["index_ok"]:
-            return "instance-index-changed: %s row index is not 0..n-1" % what
+        if exp["index"] != out["index"]:
+            return "instance-labels-changed: %s expected row index %s got %s" % (
+                what, exp["index"], out["index"])
     return None
 
 
@@ -621,7 +676,14 @@ def oracle(case, out):
         # are reported separately
         return "conversion-raised(%s): %s step %d %s: %s" % (
             case["path"][out["at"]]["e"], what, out["at"], out["err"], out["msg"])
-    return _diff(exp, out, what)
+    f = _diff(exp, out, what)
+    if f and case.get("labels") and any(e["e"] == "L>N" for e in case["path"]) \
+            and _diff(_simulate(case, long_sorts_instances=True), out, what) is None:
+        # everything else as expected: only the instances come back in case-id order instead of
+        # their original order (finding F-C15-4); any other departure keeps its own clause
+        return ("instance-order-changed-through-long: %s instance labels %s: instances returned "
+                "in the order of their sorted labels (%s)" % (what, case["labels"], f[:160]))
+    return f
 
 
 def nontrivial(case, out):
@@ -639,6 +701,8 @@ def _trim(case, n, c, T):
     d["data"] = [[s[:T] for s in inst[:c]] for inst in case["data"][:n]]
     if "names" in d:
         d["names"] = d["names"][:c]
+    if d.get("labels"):
+        d["labels"] = d["labels"][:n]
     d["path"] = [dict(e, cn=e["cn"][:c]) if e.get("cn") else dict(e) for e in case["path"]]
     return d
 
@@ -660,6 +724,12 @@ def shrink(case):
         yield dict(case, path=case["path"][:-1])
     if n > 1:
         yield _trim(case, n - 1, c, T)
+        d = dict(case, data=case["data"][1:])        # drop the FIRST instance
+        if d.get("labels"):
+            d["labels"] = d["labels"][1:]
+        yield _trim(d, n - 1, c, T)
+    if case.get("labels"):
+        yield {k: v for k, v in case.items() if k != "labels"}
     if c > 1:
         yield _trim(case, n, c - 1, T)
         if "names" in case:         # also try dropping the FIRST column (keeps a special last name)
@@ -708,18 +778,37 @@ def _ckind(k):
     return {"S": "KSeries", "A": "KArray"}[k]
 
 
-def _crep(o):
+def _code(case):
+    """instance labels as integers for the Coq model: ints as they are, str labels by their rank
+    in sorted order (the conversions use labels only through equality and order)"""
+    strs = sorted(x for x in (case.get("labels") or []) if isinstance(x, str))
+    rank = {x: i for i, x in enumerate(strs)}
+
+    def code(x):
+        if isinstance(x, str):
+            if x not in rank:
+                raise ValueError("unknown instance label %r" % (x,))
+            return rank[x]
+        return x
+    return code
+
+
+def _crep(o, code=lambda x: x):
     r = o["rep"]
     if r == "N":
-        return "(RN (mkN %s %s %s))" % (_ckind(o["kind"]), _cnames(o["cols"]), _cpanel(o["rows"]))
+        body = "(mkN %s %s %s)" % (_ckind(o["kind"]), _cnames(o["cols"]), _cpanel(o["rows"]))
+        idx = o.get("index")
+        if idx is None or idx == list(range(len(o["rows"]))):
+            return "(RN %s)" % body
+        return "(RNI %s %s)" % (czlist([code(x) for x in idx]), body)
     if r == "A":
         return "(RA %s)" % _cpanel(o["data"])
     if r == "M":
         return "(RM (mkM %s %s))" % (_cnames(o["cols"]), clist(
-            ["((%s, %s), %s)" % (cz(k[0]), cz(k[1]), czlist(row))
+            ["((%s, %s), %s)" % (cz(code(k[0])), cz(k[1]), czlist(row))
              for k, row in zip(o["keys"], o["rows"])]))
     if r == "L":
-        return "(RL %s)" % clist(["(%s, %s, %s, %s)" % (cz(i), _cname(d), cz(t), cz(v))
+        return "(RL %s)" % clist(["(%s, %s, %s, %s)" % (cz(code(i)), _cname(d), cz(t), cz(v))
                                   for i, d, t, v in o["rows"]])
     if r == "T":
         return "(RT %s)" % clist([czlist(x) for x in o["rows"]])
@@ -730,22 +819,24 @@ def _cstart(case):
     data = case["data"]
     n, c, T = case["n"], case["c"], case["T"]
     st = case["start"]
+    code, lab = _code(case), _lab(case)
     if st == "N":
-        return _crep({"rep": "N", "kind": case["cells"], "cols": case["names"], "rows": data})
+        return _crep({"rep": "N", "kind": case["cells"], "cols": case["names"], "rows": data,
+                      "index": lab}, code)
     if st == "A":
         return _crep({"rep": "A", "data": data})
     if st == "M":
         return _crep({"rep": "M", "cols": case["names"],
-                      "keys": [[i, t] for i in range(n) for t in range(T)],
+                      "keys": [[lab[i], t] for i in range(n) for t in range(T)],
                       "rows": [[data[i][j][t] for j in range(c)]
-                               for i in range(n) for t in range(T)]})
+                               for i in range(n) for t in range(T)]}, code)
     if st == "L":
-        rows = [[i, case["names"][j], t, data[i][j][t]]
+        rows = [[lab[i], case["names"][j], t, data[i][j][t]]
                 for j in range(c) for i in range(n) for t in range(T)]
         if case.get("shuffle"):
             import random
             random.Random(case["shuffle"]).shuffle(rows)
-        return _crep({"rep": "L", "rows": rows})
+        return _crep({"rep": "L", "rows": rows}, code)
     return _crep({"rep": "T", "rows": [sum(inst, []) for inst in data]})
 
 
@@ -788,7 +879,7 @@ def coq_case(case, out):
                     out.get("rows", out.get("data")))):
             return None          # not a container of the expected type: reported by the oracle
         try:
-            o = "(Some %s)" % _crep(out)
+            o = "(Some %s)" % _crep(out, _code(case))
         except ValueError:
             return None
     return "CPath %s %s %s" % (_cstart(case), _cpath(case), o)
@@ -821,6 +912,10 @@ def distribution(cases, results):
                 d["cells:ndarray"] += 1
             if c.get("shuffle"):
                 d["long:shuffled"] += 1
+            lab = c.get("labels")
+            d["instance-labels:%s" % (
+                "default" if not lab else "str" if isinstance(lab[0], str)
+                else "ascending" if lab == sorted(lab) else "int-unsorted")] += 1
         else:
             d["kind:%s" % c["kind"]] += 1
     return dict(d)
